@@ -71,6 +71,8 @@ def make_ios(g, rng, mod, wide=False):
     ios.pre = rng.random() < 0.4
     ios.post = rng.random() < 0.4
     ios.via_objects = rng.random() < 0.3
+    # no tags on the members at all (legal: nothing but the last member is OPTIONAL); the open type is then ANY-like in BER
+    ios.untagged = mod.tagdefault != "AUTOMATIC" and rng.random() < 0.4
     return ios
 
 
@@ -87,7 +89,7 @@ def ios_text(ios, mod):
 
     def tag():
         nonlocal k
-        s = "" if auto else "[%d] " % k
+        s = "" if auto or ios.untagged else "[%d] " % k
         k += 1
         return s
     if ios.pre:
@@ -123,7 +125,7 @@ def shadow_frame(ios, mod, rowtype):
         nonlocal k
         t = ("C", k, mode)
         k += 1
-        return t
+        return None if ios.untagged else t
     import copy
     if ios.pre:
         comps.append(Comp("pre", Type("BOOLEAN", tag=tg())))
